@@ -1154,10 +1154,17 @@ def r_dbgpure(ctx, view, kinds=("TW", "MW", "KEYMUT", "CMP", "MRUC")):
     want = set(kinds)
     bad = 0
     n = 0
+    # only code a user of the crate can make run (a private checker nothing calls is test scaffolding, not behaviour)
+    live = set()
+    for key, g in dv.prog.fns.items():
+        if g.exported and key not in live:
+            live |= dv.fx.reach(key)
     for key in sorted(set(view.prog.fns) | set(dv.prog.fns)):
         f, g = view.prog.fns.get(key), dv.prog.fns.get(key)
         if g is None:
             continue   # exists only WITHOUT debug assertions: the analysed build has it
+        if key not in live:
+            continue
         n += 1
         if f is None:
             eff = {x for x in dv.fx.effects.get(key, ()) if x in want}
@@ -1178,4 +1185,4 @@ def r_dbgpure(ctx, view, kinds=("TW", "MW", "KEYMUT", "CMP", "MRUC")):
                        "%s x%d" % (" ".join(str(x) for x in k if x), v) for k, v in sorted(extra.items(), key=str))[:400])
     ctx.ob("R-DBGPURE", "crate:bodies-compared", True, "",
            "%d bodies compared between the builds without and with debug assertions; %d differ in state-changing / user-code events" % (n, bad))
-    ctx.floor("R-DBGPURE", n, 200)
+    ctx.floor("R-DBGPURE", n, 150)
